@@ -34,6 +34,10 @@ type cheat struct {
 	// commit cheat: the malformed value is committed to consistently (see CommitCheat)
 	commitRule string
 	newCommit  interface{}
+	// zero-constant dealer (FROST key generation): replacement polynomial commitment and proof for the round-2 broadcast
+	zeroConst bool
+	newPhi    *polynomial.Exponent
+	newSigma  *zksch.Proof
 }
 
 func typeName(s interface{}) string {
@@ -62,8 +66,24 @@ func addInt(x *saferith.Int, d int64) *saferith.Int {
 	return new(saferith.Int).Add(x, di, -1)
 }
 
+// wrongShares: in CMP key generation / refresh the shares are computed in round 3 from the polynomial that was committed to
+// in round 1; the cheater evaluates ANOTHER polynomial (constant term + 1) there: every share it sends is a well-formed,
+// in-range scalar that does not lie on the committed polynomial.
+func (c *cheat) wrongShares(s round.Session) {
+	if c.rule != "cmp:wrongshares" || typeName(s) != "round3" {
+		return
+	}
+	f := field(s, "VSSSecret")
+	if !f.IsValid() || !f.CanSet() {
+		return
+	}
+	cur := f.Interface().(*polynomial.Polynomial)
+	f.Set(reflect.ValueOf(polynomial.NewPolynomial(s.Group(), int(cur.Degree()), s.Group().NewScalar().Set(cur.Constant()).Add(one(s.Group())))))
+}
+
 func (c *cheat) before(s round.Session) {
 	c.frostBefore(s)
+	c.wrongShares(s)
 	if typeName(s) != "presign3" {
 		return
 	}
@@ -168,8 +188,42 @@ func (c *cheat) recommit(next round.Session) {
 	c.newCommit = com
 }
 
+// zeroDeal: after round 1 of a FROST key generation the cheater replaces its polynomial by one whose constant term is zero
+// (its contribution to the key is the identity), with the matching commitment and an honestly made proof of knowledge of 0.
+func (c *cheat) zeroDeal(next round.Session) {
+	if !c.zeroConst || typeName(next) != "round2" || c.newPhi != nil {
+		return
+	}
+	fi := field(next, "f_i")
+	hf, ok := next.(interface{ HashForID(party.ID) *hash.Hash })
+	if !fi.IsValid() || !ok {
+		return
+	}
+	var deg int
+	setUnexported(next, "f_i", func(old interface{}) interface{} {
+		deg = int(old.(*polynomial.Polynomial).Degree())
+		return polynomial.NewPolynomial(next.Group(), deg, next.Group().NewScalar())
+	})
+	var f *polynomial.Polynomial
+	setUnexported(next, "f_i", func(old interface{}) interface{} { f = old.(*polynomial.Polynomial); return old })
+	c.newPhi = polynomial.NewPolynomialExponent(f)
+	// the honest prover refuses the identity; the equation z G = C + e * identity holds for any z with C = z G
+	_ = hf
+	z := one(next.Group())
+	c.newSigma = &zksch.Proof{C: zksch.Commitment{C: z.ActOnBase()}, Z: zksch.Response{Z: z}}
+	field(next, "Phi").SetMapIndex(reflect.ValueOf(next.SelfID()), reflect.ValueOf(c.newPhi))
+}
+
 func (c *cheat) beforeSend(next round.Session, m *round.Message) {
 	c.frostBeforeSend(next, m)
+	if c.newPhi != nil && typeName(m.Content) == "broadcast2" {
+		if f := field(m.Content, "Phi_i"); f.IsValid() && f.CanSet() {
+			f.Set(reflect.ValueOf(c.newPhi))
+		}
+		if f := field(m.Content, "Sigma_i"); f.IsValid() && f.CanSet() {
+			f.Set(reflect.ValueOf(c.newSigma))
+		}
+	}
 	if c.newCommit != nil {
 		if f := field(m.Content, "Commitment"); f.IsValid() && f.CanSet() && f.Type() == reflect.TypeOf(c.newCommit) {
 			f.Set(reflect.ValueOf(c.newCommit))
@@ -214,6 +268,7 @@ func (p *proxy) Finalize(out chan<- *round.Message) (round.Session, error) {
 	close(tmp)
 	if next != nil && err == nil {
 		p.c.recommit(next)
+		p.c.zeroDeal(next)
 		p.c.after(next)
 		if p.c.observe != nil {
 			p.c.observe(next)
@@ -352,6 +407,8 @@ func CmpDealerCheat(s *Session, cheater party.ID, kind string, sid []byte, mk fu
 				deg--
 			case "nonzero":
 				c = one(r.Group())
+			case "zero":
+				c = r.Group().NewScalar()
 			default:
 				return nil, fmt.Errorf("unknown dealer cheat %q", kind)
 			}
@@ -433,4 +490,34 @@ func (c *cheat) frostBeforeSend(next round.Session, m *round.Message) {
 		cur := f.Interface().(curve.Scalar)
 		f.Set(reflect.ValueOf(next.Group().NewScalar().Set(cur).Add(one(next.Group()))))
 	}
+}
+
+// FrostZeroDealer: `cheater` deals, in a key generation, a polynomial whose constant term is zero (see zeroDeal).
+func FrostZeroDealer(s *Session, cheater party.ID, sid []byte, mk func() protocol.StartFunc) {
+	c := &cheat{zeroConst: true}
+	s.Makers[cheater] = multi(func() protocol.StartFunc {
+		inner := mk()
+		return func(sessionID []byte) (round.Session, error) {
+			r, err := inner(sessionID)
+			if err != nil {
+				return nil, err
+			}
+			return wrap(r, c), nil
+		}
+	}, sid)
+}
+
+// CmpWrongShares: see wrongShares.
+func CmpWrongShares(s *Session, cheater party.ID, sid []byte, mk func() protocol.StartFunc) {
+	c := &cheat{rule: "cmp:wrongshares"}
+	s.Makers[cheater] = multi(func() protocol.StartFunc {
+		inner := mk()
+		return func(sessionID []byte) (round.Session, error) {
+			r, err := inner(sessionID)
+			if err != nil {
+				return nil, err
+			}
+			return wrap(r, c), nil
+		}
+	}, sid)
 }
